@@ -1,6 +1,7 @@
 package main
 
 import (
+	"sort"
 	"strconv"
 	"strings"
 
@@ -399,6 +400,20 @@ func GenC15(seed, index uint64) *Workload {
 		// only matters if the library starts goroutines of its own: they become
 		// simulated tasks and this walk decides how they interleave
 		w.Sched = simrt.Schedule{Kind: simrt.StratWalk, Seed: r.U64(), WalkDen: pick(r, []uint64{4, 16, 64})}
+	}
+	if r.P(1, 8) {
+		// forced collections in the middle of evaluations (fault F6)
+		n := 1 + r.Intn(3)
+		span := 20000
+		if len(w.Docs[0]) > 50000 {
+			span = 2000000
+		}
+		var gs []uint64
+		for i := 0; i < n; i++ {
+			gs = append(gs, uint64(r.Intn(span)))
+		}
+		sort.Slice(gs, func(a, b int) bool { return gs[a] < gs[b] })
+		w.Sched.GCSteps = gs
 	}
 	if r.P(1, 40) {
 		w.Note += " long-reuse"
